@@ -1,0 +1,96 @@
+//go:build verif
+
+package modules
+
+import "time"
+
+// Verification helpers for the task scheduler (build tag "verif" only).
+
+// verifTaskOp brackets one locked section that acts on a task: it reports "<point>:begin" at once and
+// returns the function reporting "<point>:end" together with a snapshot of the task's fields. The sink
+// may hold a lock between the two calls, which makes the section atomic with respect to every other
+// bracketed section of the scheduler.
+func verifTaskOp(point string, t *Task) func() {
+	verifEvent(point+":begin", t)
+	return func() { verifTaskEnd(point+":end", t) }
+}
+
+// verifTaskEnd reports the end of a bracketed section with a snapshot of the task's fields.
+// The caller holds t.lock.
+func verifTaskEnd(point string, t *Task) {
+	verifEvent(point, t, VerifTaskState{
+		Canceled:  t.canceled,
+		Executing: t.executing,
+		Overtime:  t.overtime,
+		ExecuteAt: t.executeAt,
+		MaxDelay:  t.maxDelay,
+		InQueue:   t.queueElement != nil,
+		InPrio:    t.prioritizedQueueElement != nil,
+		InSched:   t.scheduleListElement != nil,
+	})
+}
+
+// VerifTaskState is a copy of the scheduling fields of a task.
+type VerifTaskState struct {
+	Canceled, Executing, Overtime bool
+	ExecuteAt                     time.Time
+	MaxDelay                      time.Duration
+	InQueue, InPrio, InSched      bool
+}
+
+// VerifTaskLists returns the current content of the two run queues and of the schedule.
+// Must not be called while queuesLock or scheduleLock is held by the caller.
+func VerifTaskLists() (queue, prio, sched []*Task) {
+	queuesLock.Lock()
+	for e := taskQueue.Front(); e != nil; e = e.Next() {
+		queue = append(queue, e.Value.(*Task)) //nolint:forcetypeassert
+	}
+	for e := prioritizedTaskQueue.Front(); e != nil; e = e.Next() {
+		prio = append(prio, e.Value.(*Task)) //nolint:forcetypeassert
+	}
+	queuesLock.Unlock()
+	scheduleLock.Lock()
+	for e := taskSchedule.Front(); e != nil; e = e.Next() {
+		sched = append(sched, e.Value.(*Task)) //nolint:forcetypeassert
+	}
+	scheduleLock.Unlock()
+	return
+}
+
+// VerifTasksReset empties the run queues and the schedule (between scenarios of one process).
+func VerifTasksReset() {
+	queuesLock.Lock()
+	taskQueue.Init()
+	prioritizedTaskQueue.Init()
+	queuesLock.Unlock()
+	scheduleLock.Lock()
+	taskSchedule.Init()
+	scheduleLock.Unlock()
+}
+
+// VerifTasksOnlineModule returns a fresh unregistered module that is online.
+func VerifTasksOnlineModule(name string) *Module {
+	m := initNewModule(name, nil, nil, nil)
+	m.status = StatusOnline
+	return m
+}
+
+// VerifTasksStartHandlers starts the queue handler and the schedule handler (once per process) and a
+// goroutine that always offers a task timeslot (as the package's own tests do).
+func VerifTasksStartHandlers() {
+	if taskQueueHandlerStarted.IsSet() {
+		return
+	}
+	go taskQueueHandler()
+	go taskScheduleHandler()
+	go func() {
+		for {
+			taskTimeslot <- struct{}{}
+		}
+	}()
+}
+
+// VerifTaskConsts returns the scheduler's time constants.
+func VerifTaskConsts() (timeslotWait, executionWait, maxDelay time.Duration) {
+	return maxTimeslotWait, maxExecutionWait, defaultMaxDelay
+}
